@@ -17,28 +17,37 @@ CLAIMS.update({
  'C01': ("proof", "Proof, partial. Proved (Lean, all word sizes and values): both machines are instances of one prophetic semantics whose "
          "backtracking driver is sound (run_sound), so every VM / reference-machine verdict is a statement about Exec and Halts; committed "
          "traces are unique; the generator's arith_map/compare_map (regenerated each run) agree with the reference operators including "
-         "division by zero; reaching all_is_win is [flag win] + terminal loop; write(int) is correct. NOT proved: semantic preservation of "
-         "whole programs - validated by running real hidc output on the Lean VM against the reference machine on generated programs, the "
-         "examples and the 52 upstream recorded outputs.", "machine-checked proof (Lean 4) of semantics framework, tables and library + differential validation of whole programs", "6 C01"),
+         "division by zero; reaching all_is_win is [flag win] + terminal loop; write(int) is correct. PROVED end to end for the sequential "
+         "integer core (int locals, arithmetic, comparisons/and/or/not, declarations, assignments, write/writeln, blocks, if, loops, "
+         "return): core_semantic_preservation - the model Compiler/Core.lean of the code generator, checked on every run to be IDENTICAL "
+         "to the assembled output of the real compiler, performs exactly the events of the source semantics, for every program, word "
+         "size, stack size and build mode. NOT proved beyond the core (arrays, bytes, strings, calls, time travel): validated by running "
+         "real hidc output on the Lean VM against the reference machine on generated programs, the examples and the 52 upstream "
+         "recorded outputs.", "machine-checked proof (Lean 4) of semantics framework, tables and library + differential validation of whole programs", "6 C01"),
  'C02': ("proof", "Proof, partial. The construct laws (undo/preempt/stop/?? as Turing jumps: taken iff the other branch Defeats; a caught "
          "defeat restores environment, continuation and real defeat) are theorems about the reference semantics; the generic jump/Reach "
          "calculus and driver soundness are proved once for source and target. Whole programs and histories of try blocks are validated "
          "differentially (history templates, defeat inside defeat functions, ?? into globals).", "machine-checked proof (Lean 4) of the construct laws + differential validation", "6 C02"),
  'C03': ("proof", "Proof, partial. Proved for the regenerated library and tables, all w>=2: the win/error/fault entry points never halt and "
          "emit exactly their flags; halt_inversion is logical negation on all ten conditional halts; goto never commits its halt; a VM "
-         "verdict `halted` would exhibit Halts init (driver soundness). Whole-program non-halting is validated: no generated program in any "
-         "build ever yields a committed halt.", "machine-checked proof (Lean 4) + exhaustive-outcome validation on generated programs", "6 C03"),
+         "verdict `halted` would exhibit Halts init (driver soundness). Whole-program non-halting is PROVED for the sequential integer core "
+         "(core_never_halts, core_overflow_never_halts; model tied by the exact core correspondence) and validated beyond it: no "
+         "generated program in any build ever yields a committed halt.", "machine-checked proof (Lean 4) + exhaustive-outcome validation on generated programs", "6 C03"),
  'C04': ("proof", "Proof, partial. Proved for all w and values: the function-entry stack guard passes iff the frame fits (no wrap), the "
          "unsigned index check is the two-sided bounds check, sane lengths cannot wrap, write(int) touches only its registers and digit "
-         "buffer. The whole-program invariant is validated by the Lean access monitor at the minimal succeeding stack size S+8,S+1,S,S-1.",
+         "buffer; the digit buffer the compiler accounts for suffices for every word size (2^100000 < 10^30103). For the sequential integer "
+         "core the stack check is proved exact end to end (core_stack_check_exact + core_semantic_preservation: fits => every access in "
+         "frame, else stack_overflow first). Beyond the core the whole-program invariant is validated by the Lean access monitor at the "
+         "minimal succeeding stack size S+8,S+1,S,S-1.",
          "machine-checked proof (Lean 4) of guard templates and library footprint + monitored execution at tight stacks", "6 C04"),
  'C05': ("proof", "Proof of exactness for every guard template (division, index, length, stack): passes iff the condition holds, otherwise "
          "exactly [flag kind, flag error] then the terminal loop, before the guarded instruction - all w>=2, all operand values. The "
-         "templates are tied to the generator by a conformance check on every compiled program; placement in whole programs is validated "
+         "templates are tied to the generator by a conformance check on every compiled program; for division by zero in the sequential "
+         "integer core the whole-program statement is proved (core_division_by_zero); otherwise placement in whole programs is validated "
          "by fault injection over operator x element type x storage class x access form.", "machine-checked proof (Lean 4) of guard templates + conformance + fault injection", "6 C05"),
  'C15': ("proof", "Proof, partial. guards_are_observers: each runtime check that passes hands over exactly the memory it found (the "
-         "scratch write of the stack guard is on the path not taken) - all w, all values. Equality of unchecked and checked behaviour on "
-         "fault-free whole programs is validated by running both builds.", "machine-checked proof (Lean 4) of guard templates + two-build differential", "6 C15"),
+         "scratch write of the stack guard is on the path not taken) - all w, all values. For the sequential integer core, equality of "
+         "the two builds on fault-free runs is PROVED (core_unchecked_same); beyond it, it is validated by running both builds.", "machine-checked proof (Lean 4) of guard templates + two-build differential", "6 C15"),
 })
 CLAIMS.update({
  'C09': ("proof", "Proof. For the whole value space (all a, b < 2^n) and every w>=2: the regenerated arith_map/compare_map compute the reference "
